@@ -204,6 +204,18 @@ fn field_spec(d: &mut Dice, tys: &[&'static str]) -> Spec {
 }
 
 /// one placeholder printing a field, in one of the documented argument forms
+/// The types usable when the field is passed as an *argument* (`"{:p}", _0`): the binding is a reference to the
+/// field, and whether `{:p}` then shows the binding's or the field's address depends on the (C02/C05) substitution
+/// of single-placeholder literals by a direct trait call — not this property's business, so `p` is left out.
+fn arg_tys(tys: &[&'static str]) -> Vec<&'static str> {
+    let v: Vec<&'static str> = tys.iter().copied().filter(|t| *t != "p").collect();
+    if v.is_empty() {
+        vec![""]
+    } else {
+        v
+    }
+}
+
 fn field_atom(d: &mut Dice, l: &mut LitSrc, a: &Avail) {
     match d.weighted(&[5, 3, 2, 2]) {
         0 => {
@@ -211,17 +223,17 @@ fn field_atom(d: &mut Dice, l: &mut LitSrc, a: &Avail) {
             l.direct_field(&a.name, sp)
         }
         1 => {
-            let sp = field_spec(d, &a.tys);
+            let sp = field_spec(d, &arg_tys(&a.tys));
             l.positional(d, &a.name, sp)
         }
         2 => {
-            let sp = field_spec(d, &a.tys);
+            let sp = field_spec(d, &arg_tys(&a.tys));
             l.alias(d, &a.name, sp)
         }
         _ => match &a.repr {
             Some(f) => {
-                let (expr, kind, _) = arg_expr(f, d);
-                let sp = field_spec(d, kind.tys());
+                let (expr, kind, bare) = arg_expr(f, d);
+                let sp = if bare { field_spec(d, &arg_tys(kind.tys())) } else { field_spec(d, kind.tys()) };
                 if d.chance(50) {
                     l.positional(d, &expr, sp)
                 } else {
@@ -229,7 +241,7 @@ fn field_atom(d: &mut Dice, l: &mut LitSrc, a: &Avail) {
                 }
             }
             None => {
-                let sp = field_spec(d, &a.tys);
+                let sp = field_spec(d, &arg_tys(&a.tys));
                 l.positional(d, &a.name, sp)
             }
         },
@@ -246,6 +258,7 @@ struct Var {
     own_substitutable: bool,
     rename: Option<&'static str>,
     values: Vec<String>,
+    values2: Vec<String>,
 }
 
 impl Var {
@@ -276,14 +289,14 @@ impl Var {
             Shape::Named => format!("T::{id} {{ {} }}", self.fields.iter().map(|f| f.name.clone()).collect::<Vec<_>>().join(", ")),
         }
     }
-    fn ctor(&self) -> String {
+    fn ctor(&self, values: &[String]) -> String {
         let id = self.ident();
         match self.shape {
             Shape::Unit => format!("T::{id}"),
             Shape::EmptyTuple => format!("T::{id}()"),
             Shape::EmptyBrace => format!("T::{id} {{}}"),
-            Shape::Tuple => format!("T::{id}({})", self.values.join(", ")),
-            Shape::Named => format!("T::{id} {{ {} }}", self.fields.iter().zip(&self.values).map(|(f, v)| format!("{}: {v}", f.member)).collect::<Vec<_>>().join(", ")),
+            Shape::Tuple => format!("T::{id}({})", values.join(", ")),
+            Shape::Named => format!("T::{id} {{ {} }}", self.fields.iter().zip(values).map(|(f, v)| format!("{}: {v}", f.member)).collect::<Vec<_>>().join(", ")),
         }
     }
 }
@@ -324,7 +337,7 @@ fn own_literal(d: &mut Dice, name: &str, fields: &[Field], tr_ty: &'static str) 
             plain[d.pick(plain.len())]
         };
         let sp = Spec::bare(ty);
-        match d.pick(3) {
+        match if ty == "p" { 0 } else { d.pick(3) } {
             0 => l.direct_field(&a.name, sp),
             1 => l.positional(d, &a.name, sp),
             _ => l.alias(d, &a.name, sp),
@@ -408,7 +421,8 @@ fn gen_var(d: &mut Dice, i: usize, style: usize, tr_ty: &'static str, mode: Mode
     };
     let rename = if is_display && nf == 0 && !has_own && d.chance(25) { Some(CASINGS[d.pick(8)]) } else { None };
     let values = fields.iter().enumerate().map(|(j, f)| f.kind.value(i + j, d)).collect();
-    Var { name, words, raw, shape, fields, own, own_substitutable, rename, values }
+    let values2 = fields.iter().enumerate().map(|(j, f)| f.kind.value(i + j + 1, d)).collect();
+    Var { name, words, raw, shape, fields, own, own_substitutable, rename, values, values2 }
 }
 
 /// fields visible (with a common way of printing them) in every variant of `app`
@@ -661,7 +675,10 @@ impl EnumModel {
         ));
         s.push_str("pub fn run(o: &mut Out) {\n");
         for v in &self.vars {
-            s.push_str(&format!("    {{ let v = {}; o.eq(\"variant {}\", &v.__ref(), &format!(\"{outer}\", v)); }}\n", v.ctor(), v.name));
+            s.push_str(&format!("    {{ let v = {}; o.eq(\"variant {}\", &v.__ref(), &format!(\"{outer}\", v)); }}\n", v.ctor(&v.values), v.name));
+            if !v.fields.is_empty() && v.values2 != v.values {
+                s.push_str(&format!("    {{ let v = {}; o.eq(\"variant {}\", &v.__ref(), &format!(\"{outer}\", v)); }}\n", v.ctor(&v.values2), v.name));
+            }
         }
         s.push_str("}\n");
         s
@@ -867,7 +884,7 @@ fn build_negative(d: &mut Dice) -> GenCase {
 }
 
 fn build(d: &mut Dice) -> GenCase {
-    if d.chance(14) {
+    if d.chance(10) {
         build_negative(d)
     } else {
         build_positive(d)
@@ -960,7 +977,8 @@ fn mask_addresses(s: &str) -> String {
     while i < b.len() {
         if b[i] == '0' && i + 1 < b.len() && b[i + 1] == 'x' && i + 2 < b.len() && b[i + 2].is_ascii_hexdigit() {
             let mut j = i + 2;
-            while j < b.len() && b[j].is_ascii_hexdigit() {
+            // two addresses may be adjacent: a `0x` inside the run starts the next one
+            while j < b.len() && b[j].is_ascii_hexdigit() && !(b[j] == '0' && j + 1 < b.len() && b[j + 1] == 'x') {
                 j += 1;
             }
             out.push_str("0x@");
@@ -1011,9 +1029,9 @@ pub fn prop() -> DiceProp {
         crate_attrs: String::new(),
         nightly: false,
         check_only: false,
-        ndice: 260,
-        quick: (1400, 1),
-        thorough: (5000, 4),
+        ndice: 420,
+        quick: (2400, 1),
+        thorough: (6000, 6),
         build,
         fixed,
         classify,
@@ -1023,7 +1041,7 @@ pub fn prop() -> DiceProp {
             "a field-less variant without own attribute under a non-Display trait is generated only together with an enum-level default (the docs restrict implicit unit names to Display)".into(),
         ],
         floors: vec![
-            ("mode=wrap".into(), 0.3),
+            ("mode=wrap".into(), 0.28),
             ("mode=default".into(), 0.2),
             ("mode=transparent".into(), 0.05),
             ("mixed_own_attribute".into(), 0.3),
